@@ -31,6 +31,7 @@ extern void *mpt_qpop(MPT_STRUCT(queue) *queue, size_t len, void *data)
 			errno = ERANGE;
 			return 0;
 		}
+		base += low - len;
 		if (data) {
 			memcpy(data, base, len);
 		}
@@ -47,10 +48,11 @@ extern void *mpt_qpop(MPT_STRUCT(queue) *queue, size_t len, void *data)
 			return 0;
 		}
 		base = ((uint8_t *) queue->base) + queue->max - len;
-		memcpy(data, base, high);
+		memcpy(data, base, len);
 		memcpy(((uint8_t *) data) + len, queue->base, high);
 		
 		base = data;
+		queue->len -= high;
 	}
 	/* data in high part */
 	else {
